@@ -24,6 +24,9 @@ def load_checks():
 
 CHECKS = load_checks()
 
+# checks that have been validated on the unchanged tree (several seeds) and are claimed in MANIFEST.json
+READY = {'C01', 'C02', 'C04', 'C05', 'C08', 'C09', 'C10', 'C11', 'C13', 'C16', 'C18'}
+
 NOT_YET = 'check not built yet (work in progress; DESIGN.md section 7 gives the plan)'
 
 
@@ -39,8 +42,8 @@ def main():
     for p in props:
         pid = p['id']
         c = CHECKS.get(pid)
-        if not c:
-            na.append(dict(property_id=pid, reason=NOT_YET))
+        if not c or pid not in READY:
+            na.append(dict(property_id=pid, reason=NOT_YET if not c else 'check is being built and not yet validated on the unchanged tree with several seeds (not claimed until then)'))
             continue
         checks.append(dict(
             property_id=pid,
